@@ -19,6 +19,7 @@ import (
 	"go/parser"
 	"go/token"
 	"go/types"
+	"html/template"
 	"os"
 	"path/filepath"
 	"regexp"
@@ -47,6 +48,10 @@ type Contract struct {
 	modifiesFams []string
 	inlineOnly   bool
 	trusted      bool // contract assumed, body not verified against it
+	synthesized  bool
+	termAssumed  string
+	framed       bool        // writes only objects allocated by the activation itself, except frameExcept
+	frameExcept  []*specExpr // objects (references) that may be written although they existed before
 	used         bool
 	file         string
 }
@@ -139,6 +144,16 @@ func (cs *Contracts) parseFile(e *Engine, file, src string, pkg *types.Package) 
 			cur.decreases = mk(rest)
 		case "inline":
 			cur.inlineOnly = true
+		case "terminates-assumed":
+			cur.termAssumed = rest
+		case "modifies-fresh":
+			cur.framed = true
+			for _, part := range splitTop(rest, ',') {
+				part = strings.TrimSpace(part)
+				if part != "" {
+					cur.frameExcept = append(cur.frameExcept, mk(part))
+				}
+			}
 		case "trusted":
 			cur.trusted = true
 		case "modifies":
@@ -370,15 +385,63 @@ func (cs *Contracts) lookup(e *Engine, fn *ssa.Function) *Contract {
 			}
 			m.requires = append(append([]*specExpr{}, tmpl.requires...), m.requires...)
 			m.ensures = append(append([]*specExpr{}, tmpl.ensures...), m.ensures...)
+			if tmpl.framed {
+				m.framed = true
+				m.frameExcept = append(append([]*specExpr{}, tmpl.frameExcept...), m.frameExcept...)
+			}
 			if tmpl.inlineOnly {
 				m.inlineOnly = true
+			}
+			if c == nil && e.cfg.PhaseB(fn) && e.smallLeaf(fn) {
+				m.inlineOnly = true // small leaves stay inlined; the uniform requires still hold at entry
 			}
 			c = m
 		}
 	}
+	// generator phase: every non-trivial function is called through its (possibly empty) contract
+	if c == nil && fn.Blocks != nil && fn.Synthetic == "" && e.cfg.PhaseB(fn) && !e.smallLeaf(fn) {
+		c = &Contract{key: key, loopInv: map[int][]*specExpr{}, loopDec: map[int]string{}, synthesized: true, framed: true}
+		if fn.Pkg != nil {
+			c.pkg = fn.Pkg.Pkg
+		}
+	}
+	if c != nil && fn.Blocks != nil && e.cfg.PhaseB(fn) {
+		c.framed = true // uniform generator contract: FRAME (C14)
+	}
 	cs.merged[key] = c
 	return c
 }
+
+// smallLeaf: loop-free functions of at most 80 instructions that call no other in-scope generator
+// function except small leaves are inlined (their real body is used at the call site).
+func (e *Engine) smallLeaf(fn *ssa.Function) bool {
+	if v, ok := smallLeafMemo[fn]; ok {
+		return v
+	}
+	smallLeafMemo[fn] = false
+	n := 0
+	ok := len(e.loops(fn).headers) == 0
+	for _, b := range fn.Blocks {
+		n += len(b.Instrs)
+	}
+	if n > 80 {
+		ok = false
+	}
+	if ok {
+		for _, c := range e.staticCallees(fn) {
+			if c != fn && e.cfg.PhaseB(c) && !e.smallLeaf(c) {
+				ok = false
+			}
+			if c == fn {
+				ok = false
+			}
+		}
+	}
+	smallLeafMemo[fn] = ok
+	return ok
+}
+
+var smallLeafMemo = map[*ssa.Function]bool{}
 
 func (cs *Contracts) loopInvariants(e *Engine, fn *ssa.Function, ord int) []*specExpr {
 	c := cs.lookup(e, fn)
@@ -404,6 +467,7 @@ type specVal struct {
 }
 
 type specEnv struct {
+	wm, wmpost *Term // set while evaluating a callee's postcondition: fresh(x) means allocated by that call
 	vars    map[string]specVal
 	heap    Heap
 	oldHeap Heap
@@ -440,6 +504,21 @@ func (e *Engine) envForFrame(s *State, f *Frame, extra map[string]specVal) *spec
 			}
 		}
 	}
+	// source-level names of other locals: DebugRef instructions (ssa.GlobalDebug)
+	for _, b := range f.fn.Blocks {
+		for _, in := range b.Instrs {
+			if d, ok := in.(*ssa.DebugRef); ok && !d.IsAddr {
+				if id, ok := d.Expr.(*ast.Ident); ok {
+					if _, exists := env.vars[id.Name]; exists {
+						continue
+					}
+					if v, ok := f.regs[d.X]; ok {
+						env.vars[id.Name] = specVal{v, d.X.Type()}
+					}
+				}
+			}
+		}
+	}
 	// source-level names of registers defined outside loops (via DebugRef-less heuristic: Alloc comments)
 	for val, v := range f.regs {
 		if a, ok := val.(*ssa.Alloc); ok && a.Comment != "" {
@@ -457,6 +536,7 @@ func (e *Engine) envForFrame(s *State, f *Frame, extra map[string]specVal) *spec
 func (e *Engine) evalSpecBool(s *State, f *Frame, x *specExpr, extra map[string]specVal) *Term {
 	env := e.envForFrame(s, f, extra)
 	env.pkg = x.pkg
+	env.wm, env.wmpost = f.wm, f.wmpost
 	r := e.evalSpec(env, x.ast)
 	if len(r.v) != 1 || r.v[0].S != SBool {
 		e.fail("spec expression %q is not boolean", x.text)
@@ -721,6 +801,10 @@ func (e *Engine) evalSpecCall(env *specEnv, n *ast.CallExpr) specVal {
 	if id, ok := n.Fun.(*ast.Ident); ok {
 		name = id.Name
 	}
+	if sel, ok := n.Fun.(*ast.SelectorExpr); ok {
+		// pkg.pred(...)
+		name = sel.Sel.Name
+	}
 	switch name {
 	case "len":
 		a := e.evalSpec(env, n.Args[0])
@@ -770,7 +854,17 @@ func (e *Engine) evalSpecCall(env *specEnv, n *ast.CallExpr) specVal {
 		return specVal{e.loadIn(env, Place{Prefix: "box(" + e.typeKey(t) + ")", Addr: []*Term{a.v[1]}}, t), t}
 	case "fresh":
 		a := e.evalSpec(env, n.Args[0])
+		if env.wm != nil {
+			return specVal{Value{And(Lt(env.wm, a.v[0]), Le(a.v[0], env.wmpost))}, boolT}
+		}
 		return specVal{Value{freshCond(a.v[0])}, boolT}
+	case "allocated":
+		// allocated(x): x is nil or an object that exists now (at most the current allocation watermark)
+		a := e.evalSpec(env, n.Args[0])
+		if env.wmpost != nil {
+			return specVal{Value{Le(a.v[0], env.wmpost)}, boolT}
+		}
+		return specVal{Value{Le(a.v[0], env.s.allocTop())}, boolT}
 	case "haskey":
 		m := e.evalSpec(env, n.Args[0])
 		k := e.evalSpec(env, n.Args[1])
@@ -798,6 +892,37 @@ func (e *Engine) evalSpecCall(env *specEnv, n *ast.CallExpr) specVal {
 	case "strlen":
 		a := e.evalSpec(env, n.Args[0])
 		return specVal{Value{StrLen(a.v[0])}, intT}
+	case "validtemplate":
+		a := e.evalSpec(env, n.Args[0])
+		if a.v[0].K == KStrLit {
+			_, err := template.New("x").Parse(a.v[0].Name)
+			return specVal{Value{Bool(err == nil)}, boolT}
+		}
+		return specVal{Value{App("validtemplate", SBool, a.v[0])}, boolT}
+	case "forallkey":
+		// forallkey(k, m, body): for every key k present in map m
+		id := n.Args[0].(*ast.Ident).Name
+		m := e.evalSpec(env, n.Args[1])
+		mt := m.t.Underlying().(*types.Map)
+		e.symN++
+		var kv Value
+		for _, sl := range e.layout(mt.Key()) {
+			kv = append(kv, Sym(fmt.Sprintf("bv.%s%s#%d", id, sl.Suffix, e.symN), sl.Sort))
+		}
+		sub := *env
+		sub.vars = map[string]specVal{}
+		for k, v := range env.vars {
+			sub.vars[k] = v
+		}
+		sub.vars[id] = specVal{kv, mt.Key()}
+		body := e.evalSpec(&sub, n.Args[2])
+		addr := append([]*Term{m.v[0]}, kv...)
+		has := And(Ne(m.v[0], Zero), env.s.selectIn(env.heap, "mapdom("+e.typeKey(mt)+")", SBool, addr))
+		r := Implies(has, body.v[0])
+		for i := len(kv) - 1; i >= 0; i-- {
+			r = Forall(kv[i], r)
+		}
+		return specVal{Value{r}, boolT}
 	case "isnode":
 		// isnode(x, rule): x is a non-nil parse-tree node produced by grammar rule `rule`
 		a := e.evalSpec(env, n.Args[0])
@@ -806,6 +931,12 @@ func (e *Engine) evalSpecCall(env *specEnv, n *ast.CallExpr) specVal {
 			return specVal{Value{Ne(a.v[0], Zero)}, boolT}
 		}
 		return specVal{Value{And(Eq(a.v[0], e.ruleNodeTag(rule, a.v[1])), Ne(a.v[1], Zero), Le(Zero, App("acc.depth", SInt, a.v[1])))}, boolT}
+	case "rank":
+		a := e.evalSpec(env, n.Args[0])
+		return specVal{Value{App("old.ghost.rank", SInt, a.v[len(a.v)-1])}, intT}
+	case "themodel":
+		t := types.NewPointer(e.namedType(repoMod+"/internal/model", "BinaryModel"))
+		return specVal{Value{Sym("in.ghost.themodel", SInt)}, t}
 	case "depth":
 		a := e.evalSpec(env, n.Args[0])
 		return specVal{Value{App("acc.depth", SInt, a.v[len(a.v)-1])}, intT}
@@ -817,7 +948,7 @@ func (e *Engine) evalSpecCall(env *specEnv, n *ast.CallExpr) specVal {
 		return specVal{Value{And(Eq(a.v[0], e.tokenTag()), Ne(a.v[1], Zero))}, boolT}
 	}
 	if pd, ok := e.contracts.preds[name]; ok {
-		sub := &specEnv{vars: map[string]specVal{}, heap: env.heap, oldHeap: env.oldHeap, hasOld: env.hasOld, pkg: pd.pkg, s: env.s}
+		sub := &specEnv{vars: map[string]specVal{}, heap: env.heap, oldHeap: env.oldHeap, hasOld: env.hasOld, pkg: pd.pkg, s: env.s, wm: env.wm, wmpost: env.wmpost}
 		for i, p := range pd.params {
 			sub.vars[p] = e.evalSpec(env, n.Args[i])
 		}
@@ -840,6 +971,21 @@ func (e *Engine) applyContract(s *State, x ssa.CallInstruction, fn *ssa.Function
 	caller := s.top()
 	// pseudo-frame for evaluation of the callee's spec
 	pf := &Frame{fn: fn, regs: map[ssa.Value]Value{}, params: args, oldHeap: s.heap.clone()}
+	calleeB := e.cfg.PhaseB(fn)
+	for i, p := range fn.Params {
+		if i >= len(args) {
+			break
+		}
+		g := e.implicitRequires(s, calleeB, p.Type(), args[i])
+		if g == True {
+			continue
+		}
+		name := fmt.Sprintf("%s#PRE:%s:nonnil:%s", e.siteName("CALL", x, ""), e.shortFunc(fn), p.Name())
+		if caller.chain != "" {
+			name = caller.chain + "/" + name
+		}
+		e.oblige(s, "PRE", name, "uniform precondition: "+p.Name()+" != nil", x.Pos(), g)
+	}
 	for i, r := range ct.requires {
 		g := e.evalSpecBool(s, pf, r, nil)
 		name := fmt.Sprintf("%s#PRE:%s:%d", e.siteName("CALL", x, ""), e.shortFunc(fn), i)
@@ -856,7 +1002,9 @@ func (e *Engine) applyContract(s *State, x ssa.CallInstruction, fn *ssa.Function
 		if caller.chain != "" {
 			name = caller.chain + "/" + name
 		}
-		if ct.decreases == nil || ect == nil || ect.decreases == nil {
+		if ct.termAssumed != "" && ect != nil && ect.termAssumed != "" {
+			e.assumed["termination of "+e.shortFunc(fn)+" assumed: "+ct.termAssumed] = true
+		} else if ct.decreases == nil || ect == nil || ect.decreases == nil {
 			e.oblige(s, "TERM", name, "recursive call cycle without a decreases clause", x.Pos(), False)
 		} else {
 			entry := s.frames[0]
@@ -890,22 +1038,68 @@ func (e *Engine) applyContract(s *State, x ssa.CallInstruction, fn *ssa.Function
 		}
 	}
 	ver := e.nextVer()
-	for _, f := range fams {
-		if f == "strings.Builder" || f == "bytes.Buffer" {
-			// builders reachable by the callee: only those passed in; local builders of the caller are untouched
-			continue
+	var wm, wmpost *Term
+	if ct.framed {
+		// callee writes only objects it allocates itself (plus the listed exceptions): framed havoc
+		var except []frameExc
+		for _, ex := range ct.frameExcept {
+			env := e.envForFrame(s, pf, nil)
+			env.pkg = ex.pkg
+			except = append(except, e.evalFrameExc(env, ex))
 		}
-		s.havocFamily(f, ver)
+		wm = Sym(e.freshName("wm"), SInt)
+		wmpost = Sym(e.freshName("wmpost"), SInt)
+		if *s.nalloc > int(initAllocBoundary) {
+			s.assume(Le(Alloc(*s.nalloc-1), wm))
+		}
+		if n := len(s.marks); n > 0 {
+			s.assume(Le(s.marks[n-1].wmpost, wm))
+		}
+		s.assume(Le(Sym("ALLOC0", SInt), wm))
+		s.assume(Le(wm, wmpost))
+		prev := s.heap.clone()
+		for _, f := range fams {
+			s.havocFamilyFramed(f, ver, wm, except, prev)
+		}
+		s.marks = append(s.marks, callMark{nAtCall: *s.nalloc, wm: wm, wmpost: wmpost})
+	} else {
+		for _, f := range fams {
+			if f == "strings.Builder" || f == "bytes.Buffer" {
+				// builders reachable by the callee: only those passed in; local builders of the caller are untouched
+				continue
+			}
+			s.havocFamily(f, ver)
+		}
 	}
 	res := e.havocResultNamed(s, x, "ret."+e.shortFunc(fn))
 	e.bindResult(s, x, res)
 	if len(ct.ensures) > 0 {
 		extra := e.resultBindings(fn, res)
-		post := &Frame{fn: fn, regs: map[ssa.Value]Value{}, params: args, oldHeap: pf.oldHeap}
+		post := &Frame{fn: fn, regs: map[ssa.Value]Value{}, params: args, oldHeap: pf.oldHeap, wm: wm, wmpost: wmpost}
 		for _, en := range ct.ensures {
 			s.assume(e.evalSpecBool(s, post, en, extra))
 		}
 	}
+}
+
+// evalFrameExc: `field(obj, Name)` = the field slots of one object; `object(x)` / plain expression = the
+// whole object x refers to (struct behind a pointer, map contents).
+func (e *Engine) evalFrameExc(env *specEnv, ex *specExpr) frameExc {
+	if call, ok := ex.ast.(*ast.CallExpr); ok {
+		if id, ok := call.Fun.(*ast.Ident); ok {
+			switch id.Name {
+			case "field":
+				v := e.evalSpec(env, call.Args[0])
+				pt := v.t.Underlying().(*types.Pointer).Elem()
+				return frameExc{v.v[0], e.typeKey(pt) + "." + call.Args[1].(*ast.Ident).Name}
+			case "object":
+				v := e.evalSpec(env, call.Args[0])
+				return e.excFor(v.v[0], v.t)
+			}
+		}
+	}
+	v := e.evalSpec(env, ex.ast)
+	return e.excFor(v.v[0], v.t)
 }
 
 func (e *Engine) evalSpecInt(s *State, f *Frame, x *specExpr, useOld bool) *Term {
